@@ -36,7 +36,7 @@ VECTORS = [("Hello, World!", "!;a-^H s^3a:)"),
 
 
 def shards(tier, seed):
-    out = [{"kind": "table"}]
+    out = [{"kind": "table"}] + [{"kind": "runs", "special": sp} for sp in (0xFF, 0x00, 0x7E, 0x21, 0x22, 0x50)]
     if tier == "quick":
         out += [{"kind": "alpha", "maxlen": 3, "first": None}]
         out += [{"kind": "alpha", "maxlen": 4, "first": a} for a in (0x22, 0x7E)]
@@ -143,6 +143,21 @@ def run(shard, rec, tier, seed):
                 cnt += 1
         rec.case(None, n=cnt)
         rec.seen("alphabet_exhaustive", "len<=%d first=%s" % (shard["maxlen"], shard["first"]))
+    elif kind == "runs":
+        # padded shapes: a run of one special byte (every length 0..70 and around 128 / 256 / 1024 / 4096) before,
+        # after, around and inside payloads of length 0..9 - what a fixed-length padded field looks like
+        sp = shard["special"]
+        rng = random.Random("C08-runs-%d" % sp)
+        payloads = [b"", b"A", b"Hi", b"abc", b"\x22\x7e\x50\x51", b"Hello", b"\x21\x7f\x80\xfe\x00z", bytes(rng.randrange(0x22, 0x7F) for _ in range(7)), b"12345678", bytes(rng.randrange(256) for _ in range(9))]
+        for r in list(range(0, 71)) + [127, 128, 129, 255, 256, 257, 1023, 1024, 1025, 4095, 4096, 4097]:
+            run = bytes([sp]) * r
+            for pl in payloads:
+                for x in (run + pl, pl + run, run + pl + run, pl + run + pl, run + pl + run[:-1]):
+                    mon.check(x)
+                    cnt += 1
+            rec.case(("runs", sp, r), n=5 * len(payloads))
+        rec.seen("run-bytes", "0x%02x" % sp)
+        rec.count("padded-shapes", cnt)
     elif kind == "alpha5":
         for t in itertools.product(ALPHA, repeat=3):
             mon.check(bytes((shard["first"], shard["second"]) + t))
